@@ -194,6 +194,19 @@ impl BytePipe {
         true
     }
 
+    /// A raw byte-level peer that reads `dir` takes everything that was delivered to it.
+    pub fn raw_take(&self, dir: usize) -> Vec<u8> {
+        let (bytes, w) = {
+            let mut l = self.lock();
+            let d = &mut l.dirs[dir];
+            let bytes = std::mem::take(&mut d.unread);
+            d.consumed += bytes.len() as u64;
+            (bytes, d.writer_waker.take())
+        };
+        wake(w);
+        bytes
+    }
+
     /// From now on nothing sent on `dir` arrives, and nobody is told.
     pub fn stall(&self, dir: usize) {
         self.lock().dirs[dir].stalled = true;
